@@ -177,6 +177,15 @@ fn main() {
             }
         }
     }
+    // stroked single lines very far from the origin (|coordinate| * |delta| > 2^31): a single line is rasterised
+    // relative to its start point, so this must work (joins of polylines are only exact within about +-2^20)
+    for k in 0..(if th { 600 } else { 120 }) {
+        let a = (rng.i32(-20, 20), rng.i32(-20, 20));
+        let b = (a.0 + rng.i32(-40, 40), a.1 + rng.i32(-40, 40));
+        let by = *rng.pick(&[(300_000_000, 200_000_000), (-2_000_000_000, 1_500_000_000), (2_000_000, -1_500_000)]);
+        let w = 1 + (k as u32 % 7);
+        run_case(&mut rec, &json!({"d": {"kind":"prim","shape":{"k":"line","s":[a.0, a.1],"e":[b.0, b.1]},"style":style_desc(-1, col.stroke, w, 1)}, "by": [by.0, by.1]}));
+    }
     // nearly parallel joints (segments with almost the same or the opposite direction) of thick polylines and
     // triangles, moved to negative coordinates: the join falls back to edge end points there
     for k in 0..(if th { 30_000 } else { 2_500 }) {
